@@ -79,7 +79,8 @@ fn second_layer_toml(c: &LayerCase) -> Option<String> {
     if c.resize_again.iter().all(|r| r.is_none()) {
         return None;
     }
-    let mut s = String::from("[extend.units]\n");
+    // the temperature units only get aliases: their size and offset stay what they were
+    let mut s = String::from("[extend.units]\nC = { aliases = [\"centigrade\"] }\nfahrenheit = { names = [\"degF\"] }\ndeg = { aliases = [\"dgr\"] }\n");
     for (i, r) in c.resize_again.iter().enumerate() {
         if let Some(r) = r {
             let key = if c.by_name { BASES[i].0 } else { BASES[i].1 };
